@@ -10,7 +10,7 @@ F_SETS = [{'F': 0.1}, {'F': 0.5}, {'F': 0.71, 'fast_match': True}, {'F': 0.9, 'f
           {'F': 1.0, 'best_match': True}, {'F': 0.3, 'ratio_mode': 'accurate', 'fast_match': True}]
 UNIQ_SETS = [{'uniqueattrs': ['i', 'j']}, {'uniqueattrs': ['i', ('a', 'j'), 'k'], 'best_match': True},
              {'uniqueattrs': [], 'fast_match': True}, {'uniqueattrs': [('b', 'i')]}]
-IGN_SETS = [{'ignored_attrs': ['i']}, {'ignored_attrs': ['i', 'j'], 'fast_match': True},
+IGN_SETS = [{'ignored_attrs': ['i'], 'uniqueattrs': [('a', 'i'), ('b', 'i'), 'j']}, {'ignored_attrs': ['i']}, {'ignored_attrs': ['i', 'j'], 'fast_match': True},
             {'ignored_attrs': ['i'], 'uniqueattrs': ['i', 'j']}, {'ignored_attrs': ['k', '{urn:p}i'], 'best_match': True}]
 
 
@@ -139,6 +139,9 @@ def finding_key(desc, prop, msg):
             return "default-namespace-differs"
         if nonroot_ns(L) or nonroot_ns(R):
             return "non-root-namespace-declaration"
+        import re
+        if any(k is not None and re.match(r"ns\d+", k, flags=re.ASCII) for k in list(L.nsmap) + list(R.nsmap)):
+            return "reserved-ns-prefix-on-root"
     except Exception:  # noqa
         pass
     return None
@@ -150,6 +153,7 @@ KNOWN_STREAM = [
     ('<a xmlns="urn:x"><b/></a>', '<a xmlns="urn:y"><b/><c/></a>'),
     ('<a><b/></a>', '<a><b/><p:c xmlns:p="urn:x"><p:d/></p:c></a>'),
     ('<a><c/></a>', '<a><c><z:k xmlns:z="urn:z"/><z:k xmlns:z="urn:z"><z:m xmlns:z="urn:z"/></z:k></c></a>'),
+    ('<root><a/></root>', '<root xmlns:ns1="urn:x"><a/><ns1:b><ns1:c/></ns1:b></root>'),
 ]
 
 
@@ -166,9 +170,7 @@ def evaluate(built, focus):
         found = []
         if isinstance(raw, str):
             stats["exceptions"] += 1
-            if raw.startswith("PathProblem"):
-                found.append(("C04", "an emitted path does not select exactly one node: " + raw))
-            elif L.nsmap.get(None) != R.nsmap.get(None) or not _ns_consistent(L, R):
+            if L.nsmap.get(None) != R.nsmap.get(None) or not _ns_consistent(L, R):
                 if raw != "exc:RuntimeError":
                     found.append(("C01", "diff raised " + raw))
             else:
